@@ -581,9 +581,31 @@ fn call_to_json(value: Expr, ty: Option<&ast::TypeExpr>, attr_ptr: &MySyntaxNode
         | Some(ast::TypeExpr::TUint8)
         | Some(ast::TypeExpr::TUint16)
         | Some(ast::TypeExpr::TUint32)
-        | Some(ast::TypeExpr::TUint64)
-        | Some(ast::TypeExpr::TFloat32)
-        | Some(ast::TypeExpr::TFloat64) => call_to_string(value, ty, attr_ptr),
+        | Some(ast::TypeExpr::TUint64) => call_to_string(value, ty, attr_ptr),
+        // JSON has no NaN and no infinities: they are written as null. `v - v` is exactly 0 for a
+        // finite v and NaN otherwise, and NaN is not equal to itself.
+        Some(ast::TypeExpr::TFloat32) | Some(ast::TypeExpr::TFloat64) => {
+            let difference = || Expr::EBinary {
+                op: common_defs::BinaryOp::Sub,
+                lhs: Box::new(value.clone()),
+                rhs: Box::new(value.clone()),
+                astptr: *attr_ptr,
+            };
+            Expr::EIf {
+                cond: Box::new(Expr::EBinary {
+                    op: common_defs::BinaryOp::Eq,
+                    lhs: Box::new(difference()),
+                    rhs: Box::new(difference()),
+                    astptr: *attr_ptr,
+                }),
+                then_branch: Box::new(call_to_string(value.clone(), ty, attr_ptr)),
+                else_branch: Box::new(Expr::EString {
+                    value: "null".to_string(),
+                    astptr: *attr_ptr,
+                }),
+                astptr: *attr_ptr,
+            }
+        }
         Some(ast::TypeExpr::TInt32) => Expr::ECall {
             func: Box::new(Expr::EField {
                 expr: Box::new(value),
